@@ -130,6 +130,10 @@ def dry_vs_real_fetch(rng, driver):
 
 def run(chk, driver, tier):
     rng = chk.rng
+    # the COMPOSED model of the whole command (Model/Update.lean, theorems Props/Update.lean) against the real CLI: exit code, event trace and
+    # every configured file afterwards, on generated projects x the flag/config lattice x tag and status listings x faults x failure positions
+    import props.updfull as updfull
+    updfull.run(chk, driver, 1000 if tier == "thorough" else 30)
     n = 1200 if tier == "thorough" else 60
     chk.extra["rule"] = ("generated projects with consistent line endings x flag sets / --set-version, with and without a (fake) VCS; `update --dry` then `update`; the printed "
                          "diff parsed and applied by the model's strict applier; non-trivial = distinct project")
